@@ -296,6 +296,38 @@ def run(check):
         for f in [n for n in c.body if isinstance(n, ast.FunctionDef) and n.name == 'dataReceived']:
           calls = {x.func.attr for x in ast.walk(f) if isinstance(x, ast.Call) and isinstance(x.func, ast.Attribute)}
           found[c.name] = calls
+      # state the framing classes keep on the instance (self.X / class-level X): a receiver that stores an attribute of
+      # the same name steers Twisted's frame loop without meaning to (`paused` stops IntNStringReceiver.dataReceived)
+      tw_state = set()
+      for c in [n for n in tree.body if isinstance(n, ast.ClassDef) and n.name in (
+          'LineOnlyReceiver', 'IntNStringReceiver', 'Int32StringReceiver', '_PauseableMixin', '_RecvdCompatHack', 'LineReceiver')]:
+        for st in c.body:
+          if isinstance(st, (ast.Assign, ast.AnnAssign)):
+            for t in (st.targets if isinstance(st, ast.Assign) else [st.target]):
+              if isinstance(t, ast.Name):
+                tw_state.add(t.id)
+        for f in [n for n in c.body if isinstance(n, ast.FunctionDef)]:
+          for x in ast.walk(f):
+            if isinstance(x, ast.Attribute) and isinstance(x.ctx, ast.Store) and isinstance(x.value, ast.Name) and x.value.id == 'self':
+              tw_state.add(x.attr)
+      tw_state -= {'MAX_LENGTH', 'delimiter'}          # the two documented knobs (judged on their own)
+      clash = []
+      for cls in [base] + subs:
+        for a in cls.attrs:
+          if a in tw_state:
+            clash.append((cls, None, a))
+        for mname, m in cls.methods.items():
+          for x in walk_no_nested(m.node, include_self=False):
+            if isinstance(x, ast.Attribute) and isinstance(x.ctx, ast.Store) and isinstance(x.value, ast.Name) and m.params and \
+               x.value.id == m.params[0] and x.attr in tw_state:
+              clash.append((cls, m, x.attr))
+      for cls, m, a in clash:
+        r_s.violate('%s shadows Twisted framing state' % cls.name, m if m is not None else cls.key, None, '%s stores an attribute named `%s`, '
+                    'which the Twisted framing base classes use for their own state (%s): the frame loop of dataReceived then stops or '
+                    'skips depending on it, so complete frames of a segment can stay undelivered'
+                    % (cls.name, a, ', '.join(sorted(tw_state))[:120]), construct='%s.%s' % (cls.name, a))
+      if tw_state and not clash:
+        r_s.ok('no receiver attribute shadows Twisted framing state (%d names checked)' % len(tw_state), tb)
       if 'lineReceived' in found.get('LineOnlyReceiver', ()) and 'stringReceived' in found.get('IntNStringReceiver', ()):
         r_s.ok('twisted: LineOnlyReceiver.dataReceived -> lineReceived, IntNStringReceiver.dataReceived -> stringReceived',
                tb)
